@@ -19,7 +19,8 @@ PROPERTY = "C10"
 LEVEL = "exploration"
 RULE = ("sizes {1, 2, 1000, 64 KiB, 1 MiB-1, 1 MiB, 1 MiB+1, 4 MiB, 8 MiB} (+ random sizes, 32 MiB in thorough) x "
         "{client, server connection} x {send_data directly, HsmsProtocol.send_message (1 MiB packets)} x receiver pacing "
-        "{immediate, delayed start, small reads with sleeps} x peer receive buffer {default, 4 KiB}; 1-3 sends per "
+        "{immediate, delayed start, small reads with sleeps, a 7 s stall after the first MiB, small reads while the sender "
+        "disables as soon as its send succeeded, abortive close midway} x peer receive buffer {default, 4 KiB}; 1-3 sends per "
         "connection; distinct by (mode, path, sizes, pacing, rcvbuf); non-trivial when the total exceeds 256 KiB "
         "(more than loopback socket buffering)")
 ASSUMPTIONS = ["loopback only; buffer sizes are the kernel's", "payload bytes are a position-keyed pseudo-random stream so loss, "
@@ -59,6 +60,7 @@ class Drain(threading.Thread):
         self.stop = False
         self.eof = False
         self.close_after = 1 << 18
+        self.stalled = False
         self.last_rx = time.monotonic()
 
     def run(self):
@@ -68,7 +70,7 @@ class Drain(threading.Thread):
         self.sock.settimeout(0.05)
         while not self.stop:
             try:
-                n = 65536 if self.pacing != "small" else self.rng.choice([1024, 2048, 4096])
+                n = 65536 if self.pacing not in ("small", "small_then_sender_disables") else self.rng.choice([1024, 2048, 4096])
                 chunk = self.sock.recv(n)
                 if not chunk:
                     self.eof = True
@@ -83,6 +85,13 @@ class Drain(threading.Thread):
                     return
                 if self.pacing == "small" and self.rng.random() < 0.05:
                     time.sleep(0.002)
+                if self.pacing in ("stall", "small_then_sender_disables") and self.rng.random() < 0.05:
+                    time.sleep(0.002)
+                if self.pacing == "stall" and not self.stalled and len(self.data) >= (1 << 20):
+                    # the peer accepts nothing for longer than any of the protocol time-outs (T8 = 5 s), then goes on
+                    self.stalled = True
+                    time.sleep(7.0)
+                    self.last_rx = time.monotonic()
             except socket.timeout:
                 continue
             except OSError:
@@ -170,6 +179,20 @@ def _case(ctx, idx, active, path, sizes, pacing, rcvbuf):
             ctx.unsure(f"send did not return within 120 s: {wit}")
             drain.stop = True
             return
+        if pacing == "small_then_sender_disables" and all(results) and "exc" not in box:
+            # the sender closes the connection as soon as its send was reported successful: an orderly close delivers what
+            # was accepted (the peer is still reading)
+            ctx.count("transfers.sender_disabled_right_after_success")
+            done = threading.Event()
+
+            @stuck.harness_thread
+            def dis():
+                try:
+                    (conn if conn is not None else proto).disable()
+                finally:
+                    done.set()
+            threading.Thread(target=dis, daemon=True).start()
+            done.wait(10)
         if "exc" in box:
             ctx.violation("send-raises", {**wit, "error": box["exc"]})
             drain.stop = True
@@ -187,9 +210,9 @@ def _case(ctx, idx, active, path, sizes, pacing, rcvbuf):
                 break
             if drain.eof:
                 break
-            if time.monotonic() - drain.last_rx > 5.0 and pacing != "delayed":
+            if time.monotonic() - drain.last_rx > 5.0 and pacing not in ("delayed", "stall"):
                 break
-            if time.monotonic() - drain.last_rx > 8.0:
+            if time.monotonic() - drain.last_rx > 12.0:
                 break
             time.sleep(0.01)
         time.sleep(0.05)
@@ -273,6 +296,10 @@ def run(ctx):
                 for body in (MiB - 15, MiB - 14, MiB - 13, 2 * MiB - 14, 2 * MiB - 13):   # frame length at the 1 MiB packet boundary
                     cases.append((active, path, [body], "immediate", 0))
             cases.append((active, path, [MiB + 5, 17, 2 * MiB], "delayed", 4096))
+            cases.append((active, path, [256 * 1024], "small_then_sender_disables", 4096))
+            cases.append((active, path, [3, 600000], "small_then_sender_disables", 0))
+            if path == "send_data":
+                cases.append((active, path, [6 * MiB], "stall", 0))
     extra = 0 if ctx.quick else 200
     for _ in range(extra):
         cases.append((rng.random() < 0.5, rng.choice(["send_data", "send_message"]),
